@@ -72,11 +72,21 @@ def run(chk):
         inputs += bytegen.byte_mutations(rng, b, 150 if chk.thorough else 45)
     inputs += bytegen.token_soup(rng, 5000 if chk.thorough else 700, maxlen=25)
     inputs += bytegen.random_bytes(rng, 2000 if chk.thorough else 250)
-    for d in (50, 400, 3000 if chk.thorough else 1200):
+    # nesting and chain length around and far beyond the parser's limit (256): every recursive construct and every loop-built chain
+    for d in (50, 254, 255, 256, 257, 400, 3000, 60000 if chk.thorough else 20000):
         inputs.append(b"function main() -> void { int x = " + b"(" * d + b"1" + b")" * d + b"; }")
         inputs.append(b"function main() -> void { " + b"{" * d + b"}" * d + b" }")
         inputs.append(b"function main() -> void { int x = " + b"-" * d + b" 1; }")
+        inputs.append(b"function main() -> void { boolean x = " + b"!" * d + b"true; }")
         inputs.append(b"function main() -> void { int[] a = " + b"{" * d)
+        inputs.append(b"function main() -> void { int x = 1" + b" + 1" * d + b"; echo(x); }")
+        inputs.append(b"function main() -> void { int[] a = {1}; int x = a" + b"[0]" * d + b"; }")
+        inputs.append(b"function f(int a) -> int { return a; }\nfunction main() -> void { echo(" + b"f(" * d + b"1" + b")" * d + b"); }")
+        inputs.append(b"class A<T> { public constructor() -> A<T> = default; }\nfunction main() -> void { " + b"A<" * d + b"int" + b">" * d + b" v; }")
+        inputs.append(b"class A { public A n; public int v = 1; public constructor() -> A = default; }\nfunction main() -> void { A a = new A(); echo(a" + b".n" * d + b".v); }")
+        inputs.append(b"function main() -> void { int x = 1; " + b"x == 1 ? " * d + b"echo(1); " + b": echo(0); " * d + b" }")
+        inputs.append(b"function main() -> void { int x = 1; " + b"if (x == 1) { " * d + b"echo(1);" + b" }" * d + b" }")
+        inputs.append(b"function main() -> void { int x = " + b"(int) " * d + b"1; }")
     inputs += [b"@shots(99999999999) function main() -> void { }", b"@shots(5) function main() -> void { }",
                b"@quantum function f() -> bit { qubit q; return measure q; }", b"function main() -> void { int[99999999999] a; }"]
     # structured analyser hazards: inheritance graphs with cycles, self-extension, chains leading into a cycle (under many class
